@@ -138,15 +138,17 @@ def primitives(prog, engine_modules):
 
 def _names_in_atom(a):
     out = set()
-    if a[0] == "or":
+    if a[0] in ("or", "and"):
         for alt in a[1]:
             for x in alt:
                 out |= _names_in_atom(x)
         return out
+    if len(a) < 2 or not isinstance(a[1], str):
+        return out
     try:
         tree = ast.parse(a[1], mode="eval")
         out |= {x.id for x in ast.walk(tree) if isinstance(x, ast.Name)}
-    except SyntaxError:
+    except (SyntaxError, ValueError):
         pass
     return out
 
@@ -603,16 +605,33 @@ def rule_X1(ctx):
             keynodes = [n.key]
         elif isinstance(n, ast.Dict):
             keynodes = [k for k in n.keys if k is not None]
+        # d[key] = value with a key that is (derived from) an evaluation result
+        if isinstance(n, ast.Assign):
+            for t in n.targets:
+                if isinstance(t, ast.Subscript) and not isinstance(t.slice, ast.Constant):
+                    names = {x.id for x in ast.walk(t.slice) if isinstance(x, ast.Name)}
+                    from_eval = any(callee_name(c) == "evaluate" for c in ast.walk(t.slice)
+                                    if isinstance(c, ast.Call))
+                    for nm in names:
+                        for d in ast.walk(disp.node):
+                            if isinstance(d, ast.Assign) and any(
+                                    isinstance(tt, ast.Name) and tt.id == nm for tt in d.targets) \
+                                    and any(callee_name(c) == "evaluate" for c in ast.walk(d.value)
+                                            if isinstance(c, ast.Call)):
+                                from_eval = True
+                    if from_eval:
+                        keynodes.append(t.slice)
         for k in keynodes:
             if isinstance(k, ast.Constant):
                 continue
-            inst = (disp.qualname, "computed dict key %s" % unparse(k))
+            from sa.core import untag
+            inst = (disp.qualname, "computed dict key %s" % untag(unparse(k)))
             if any(True for t in fg.try_context(n) for h in t.handlers
                    if handler_catches(prog, h, disp.module, {"TypeError", "Exception"})):
                 res.holds(inst)
             else:
                 res.violated(inst, Finding(
-                    "X1", disp.file, disp.qualname, "computed dict key %s" % unparse(k),
+                    "X1", disp.file, disp.qualname, "computed dict key %s" % untag(unparse(k)),
                     "a dict is built with evaluated keys outside any try: an unhashable "
                     "evaluation result raises a raw TypeError from the dispatcher",
                     line=n.lineno))
